@@ -216,7 +216,7 @@ struct Lab {
     std::vector<photon::vcpu_base*> vcpus;
     std::atomic<int> remaining{0};
     std::vector<char> finished;
-    int arrived = 0, arrived2 = 0;
+    int arrived = 0, arrived2 = 0, arrived3 = 0;
 
     static Lab*& inst() { static Lab* l = nullptr; return l; }
 
@@ -262,8 +262,9 @@ struct Lab {
         while (!all_actors_finished()) photon::thread_usleep(50000);
         for (size_t i = 0; i < actors.size(); i++)
             if (actors[i].vcpu == v) photon::thread_join((photon::join_handle*)actor_th[i]);
+        barrier(me, arrived2, nvcpu);         // every actor of every vCPU has been joined
         if (vcpu_teardown) vcpu_teardown(v);
-        barrier(me, arrived2, nvcpu);         // nobody tears its vCPU down while another may still look at it
+        barrier(me, arrived3, nvcpu);         // nobody tears its vCPU down while another may still look at it
         photon::fd_events_fini();
         photon::vcpu_fini();
         ctl.done(me);
